@@ -14,9 +14,9 @@ pub const ENTRY: Entry = Entry {
     variants: &["batch"],
     level: "model_checking",
     rule: "explicit-state closure (stateright BFS, 1 and 16 threads compared) after the real init of built-in models on every \
-           supported interface kind: actions = {sleep, wake, clear, set_pixel, set_orientation, scroll region, scroll offset, tearing} plus sleep / wake with the k-th low-level operation of the call failing (k < 4, at most two failing calls per history: 'last *successful*' clause); \
+           supported interface kind: actions = {sleep, wake, clear, set_pixel, set_orientation, scroll region, scroll offset, tearing} plus sleep / wake with the k-th low-level operation of the call failing (k < 8, at most two failing calls per history: 'last *successful*' clause); \
            every transition replays the history on a fresh display with virtual time advanced only by the delay source (worst case). \
-           Key = (is_sleeping(), private driver state via hook, controller sleep state). Invariants in every state: is_sleeping() == \
+           Key = (is_sleeping(), private driver state via hook, controller sleep state, pin levels). Invariants in every state: is_sleeping() == \
            controller sleep state == (last of init/sleep/wake was sleep); every call that sent sleep-in/out returned >= 120 ms after \
            the command; no two sleep-in/out commands (including init's sleep-out) closer than 120 ms. Non-trivial = transitions that \
            sent a sleep-in or sleep-out command.",
@@ -45,9 +45,9 @@ impl Sys for Sys13 {
         self.roots.len()
     }
     fn actions(&self, _r: usize) -> Vec<u32> {
-        // 0..8 fault-free calls; 8..16: sleep (even) / wake (odd) with the k-th low-level operation of
-        // the call failing, k = (a - 8) / 2
-        (0..16).collect()
+        // 0..8 fault-free calls; 8..24: sleep (even) / wake (odd) with the k-th low-level operation of
+        // the call failing, k = (a - 8) / 2 < 8 (covers DC, WR and every data pin that changes for 0x10/0x11)
+        (0..24).collect()
     }
     fn max_depth(&self) -> usize {
         5
@@ -145,7 +145,12 @@ impl Sys for Sys13 {
             }
         }
         let st = d.state();
-        let key = vec![d.is_sleeping() as u64, rig.ctl.sleeping as u64, st.orient as u64, st.madctl as u64, st.sleeping as u64, diverged as u64];
+        // pin levels are part of the implementation state (what the transport left on the wires)
+        let lv = {
+            let b = rig.bd.borrow();
+            b.levels.iter().enumerate().fold(0u64, |acc, (i, l)| acc | (*l as u64) << i)
+        };
+        let key = vec![d.is_sleeping() as u64, rig.ctl.sleeping as u64, st.orient as u64, st.madctl as u64, st.sleeping as u64, diverged as u64, lv, hist.iter().filter(|a| **a >= 8).count() as u64];
         (key, bad)
     }
 }
